@@ -524,6 +524,41 @@ def icmp(pred, a, b):
         sx, sy = sval(a), sval(b)
         r = {'eq': x == y, 'ne': x != y, 'ult': x < y, 'ule': x <= y, 'slt': sx < sy, 'sle': sx <= sy}[pred]
         return TRUE if r else FALSE
+    # sign tests are the most significant bit:  x <s 0  ==  msb(x) ;  -1 <s x  ==  !msb(x) ;  x <=s -1 == msb ; 0 <=s x == !msb
+    if pred in ('slt', 'sle') and a.w > 1:
+        w_ = a.w
+        if pred == 'slt' and b.op == 'const' and b.args[0] == 0:
+            return slice_(a, w_ - 1, 1)
+        if pred == 'slt' and a.op == 'const' and a.args[0] == (1 << w_) - 1:
+            return not_(slice_(b, w_ - 1, 1))
+        if pred == 'sle' and b.op == 'const' and b.args[0] == (1 << w_) - 1:
+            return slice_(a, w_ - 1, 1)
+        if pred == 'sle' and a.op == 'const' and a.args[0] == 0:
+            return not_(slice_(b, w_ - 1, 1))
+    # equality with a constant only concerns the non-constant parts of a concat
+    if pred in ('eq', 'ne'):
+        k_, y_ = (a, b) if a.op == 'const' else (b, a)
+        if k_.op == 'const' and y_.op == 'concat':
+            pos = 0
+            var = []
+            mismatch = False
+            for p_ in y_.args:
+                ks = (k_.args[0] >> pos) & ((1 << p_.w) - 1)
+                if p_.op == 'const':
+                    if p_.args[0] != ks:
+                        mismatch = True
+                else:
+                    var.append((p_, ks))
+                pos += p_.w
+            if mismatch:
+                return FALSE if pred == 'eq' else TRUE
+            if len(var) == 1:
+                return icmp(pred, var[0][0], const(var[0][0].w, var[0][1]))
+    # (p ^ q) == 0  is  p == q
+    if pred in ('eq', 'ne'):
+        z, y = (a, b) if (a.op == 'const' and a.args[0] == 0) else (b, a)
+        if z.op == 'const' and z.args[0] == 0 and y.op == 'xor' and y.w > 1:
+            return icmp(pred, y.args[0], y.args[1])
     if pred in ('eq', 'ne') and b.id < a.id:
         a, b = b, a
     if a is b:
